@@ -6,6 +6,7 @@ import (
 	stderrors "errors"
 	"fmt"
 	"reflect"
+	"strings"
 	"testing"
 	"time"
 
@@ -390,6 +391,9 @@ func TestCQRSDispatch(t *testing.T) {
 		if kind == "command" {
 			bus, err := cqrs.NewCommandBusWithConfig(busPub, cqrs.CommandBusConfig{
 				GeneratePublishTopic: func(p cqrs.CommandBusGeneratePublishTopicParams) (string, error) {
+					if topicVariant == "<empty>" {
+						return "", nil
+					}
 					return topicPrefix + p.CommandName + topicVariant, nil
 				},
 				Marshaler: marshaler,
@@ -401,6 +405,9 @@ func TestCQRSDispatch(t *testing.T) {
 		} else {
 			bus, err := cqrs.NewEventBusWithConfig(busPub, cqrs.EventBusConfig{
 				GeneratePublishTopic: func(p cqrs.GenerateEventPublishTopicParams) (string, error) {
+					if topicVariant == "<empty>" {
+						return "", nil
+					}
 					return topicPrefix + p.EventName + topicVariant, nil
 				},
 				Marshaler: marshaler,
@@ -447,7 +454,7 @@ func TestCQRSDispatch(t *testing.T) {
 			switch it.Kind {
 			case 0, 1, 2:
 				v = ti.gen(t)
-				topicVariant = rapid.SampledFrom([]string{"", "", ".tenant-a", ".tenant-b"}).Draw(t, "publishTopicVariant")
+				topicVariant = rapid.SampledFrom([]string{"", "", ".tenant-a", ".tenant-b", "<empty>"}).Draw(t, "publishTopicVariant")
 				before := len(busPub.Calls())
 				if err := send(v); err != nil {
 					t.Fatalf("violation: bus refused %T %v: %v", v, v, err)
@@ -457,8 +464,12 @@ func TestCQRSDispatch(t *testing.T) {
 					t.Fatalf("violation: bus made %d Publish calls for one value", len(pcs))
 				}
 				msgName = marshaler.Name(v)
-				if pcs[0].Topic != topicPrefix+msgName+topicVariant {
-					t.Fatalf("violation: bus published on %q, the configured generator says %q for this value", pcs[0].Topic, topicPrefix+msgName+topicVariant)
+				wantTopic := topicPrefix + msgName + topicVariant
+				if topicVariant == "<empty>" {
+					wantTopic = "" // the generator may say "": that is the topic then
+				}
+				if pcs[0].Topic != wantTopic {
+					t.Fatalf("violation: bus published on %q, the configured generator says %q for this value", pcs[0].Topic, wantTopic)
 				}
 				pm := pcs[0].Msgs[0]
 				if got := marshaler.NameFromMessage(pm); got != msgName {
@@ -487,6 +498,21 @@ func TestCQRSDispatch(t *testing.T) {
 				}
 			case 3:
 				msg = message.NewMessage("foreign", []byte("whatever"))
+				if rapid.Bool().Draw(t, "foreignNameIsACaseVariantOfAKnownName") {
+					// names are compared as they are: "e1" is not "E1"
+					known := marshaler.Name(fam[hs[rapid.IntRange(0, len(hs)-1).Draw(t, "variantOf")].Type].zero())
+					variant := strings.ToUpper(known)
+					if variant == known {
+						variant = strings.ToLower(known)
+					}
+					if variant != known {
+						vv := fam[it.Type%len(fam)].gen(t)
+						if vm, err := marshaler.Marshal(vv); err == nil {
+							msg = vm
+						}
+						msg.Metadata["name"] = variant
+					}
+				}
 				if rapid.Bool().Draw(t, "foreignHasOtherMeta") {
 					msg.Metadata.Set("something", "else")
 				}
